@@ -56,7 +56,17 @@ def mon_reactions(ctx, conn):
             return st[sid]
         return IDLE if sid > highest else IDLECLOSED
 
-    for op, out in conn.steps:
+    # the generator names the symbol each frame belongs to ("# A@sel B@sel": the last one is current)
+    sym_at = {}
+    for idx, c in conn.comments:
+        if c.startswith("# ") and "@" in c:
+            sym_at[idx] = c.split()[-1].split("@")[0]
+    cur_sym = None
+    block_sym = None        # symbol that opened the header block in progress
+    block_on_idle = False
+    for si, (op, out) in enumerate(conn.steps):
+        if si in sym_at:
+            cur_sym = sym_at[si]
         f = op.split(" ")
         if dead:
             break
@@ -91,8 +101,22 @@ def mon_reactions(ctx, conn):
             A = Allowed(conn=[PROTOCOL])
             key = "stray-continuation"
         elif typ == 9:
-            A = Allowed(ok=True, stream=[PROTOCOL, REFUSED, COMPRESSION] if False else [])
             key = "continuation"
+            if state(sid) == COUR:       # the HEADERS frame was refused or reset: its CONTINUATION is ignored
+                A = Allowed(ok=True, stream=[STREAM_CLOSED])
+                A.conn = set()
+                A.close_ok = False
+                key += ":closed-our-rst"
+            elif not eh:
+                A = Allowed(ok=True)
+            elif block_sym == "Hopen":          # the block is cut inside a field and ends here: undecodable
+                A = Allowed(conn=[COMPRESSION])
+                key += ":truncated-block"
+            elif (block_sym in ("Hc", "HEc")) != block_on_idle:   # request block as trailers, or trailer block as request
+                A = Allowed(stream=[PROTOCOL])
+                key += ":malformed-message"
+            else:
+                A = Allowed(ok=True)
         elif sid == 0:
             if typ == 6 or typ == 4:
                 A = Allowed(ok=True)
@@ -113,13 +137,17 @@ def mon_reactions(ctx, conn):
                 if fr.length != 5:
                     A = Allowed(stream=[FRAME_SIZE])
                 elif dep == sid:
-                    A = Allowed(stream=[PROTOCOL])
+                    A = Allowed(ok=s0 in (CPEER, COUR, CDONE, IDLECLOSED), stream=[PROTOCOL])
                     key += ":self"
                 else:
                     A = Allowed(ok=True)
             elif s0 == IDLE:
                 if typ == 1:
-                    A = Allowed(ok=True, stream=[REFUSED, PROTOCOL] if at_limit else [])
+                    if cur_sym in ("T", "Tc") and eh:      # a block without pseudo-headers is not a request
+                        A = Allowed(stream=[PROTOCOL] + ([REFUSED] if at_limit else []))
+                        key += ":malformed-message"
+                    else:
+                        A = Allowed(ok=True, stream=[REFUSED, PROTOCOL] if at_limit else [])
                     if at_limit:
                         key += ":at-limit"
                 else:
@@ -139,6 +167,9 @@ def mon_reactions(ctx, conn):
                 if typ == 1:
                     if s0 == HCR:
                         A = Allowed(stream=[STREAM_CLOSED])
+                    elif es and cur_sym not in ("T", "Tc") and eh:   # a request block (pseudo-headers) as trailers
+                        A = Allowed(stream=[PROTOCOL])
+                        key += ":malformed-message"
                     elif es:
                         A = Allowed(ok=True)
                         key += ":trailers" + ("" if eh else "-continued")
@@ -194,6 +225,8 @@ def mon_reactions(ctx, conn):
                     viol(ctx, conn, "dispatch-from-illegal-sequence", dict(sid=dsid, frame=TYPES.get(typ, typ), state=s0, flags=fr.flags),
                          known_class="c08:%sillegal-dispatch:%s:%s" % (pre, s0, TYPES.get(typ, typ)))
                 running.add(dsid)
+        if typ == 1 and not eh:
+            block_sym, block_on_idle = cur_sym, (s0 == IDLE)
         # ---- connection gone?
         if r[0] in ("conn", "close"):
             dead = True
